@@ -595,6 +595,7 @@ fn main() {
         },
         Some("conn") => conn::main(&args),
         Some("zcc") => zcc::main(&args),
+        Some("zccm") => zcc::main_multi(&args),
         Some("pingpong") => {
             let n = args.num("iterations", 10000);
             match args.get_or("backend", "semaphore").as_str() {
